@@ -2,8 +2,18 @@
 plain family reaches too rarely (measured: NMNE never, ACL rows / application health / logins in <1 % of cases), and
 op lists weighted towards actions that move observed leaves.  A steered spec is still a plain spec dict that
 gen_scenario.build() turns into a scenario; nothing here touches the scenario dict itself.
+
+The `gated_off` steer adds a *phrase* in front of the op list: "publish non-default scan-gated health on one host
+(folder scan run to completion, file / service / application scan, OS scan), and only then make that host leave ON
+(node-shutdown or node-reset) and keep observing it for a few steps, then power it on again".
+That is the history in which "every component of a node that is not ON reads as the default encoding" can fail through
+state the observation keeps between steps; random op lists almost never produce it (a scan, >= 3 undisturbed steps, a
+power action on the same host). The phrase is a list of plain ['step', action index] ops: the indices are looked up in
+the action list that gen_scenario.build(spec) produces for this very spec.
 """
 from __future__ import annotations
+
+from typing import Dict, List, Optional
 
 from hypothesis import strategies as st
 
@@ -17,18 +27,88 @@ WEIGHTED_CATS = (
 )
 
 
-def ops_strategy(max_ops: int = 30):
-    step = st.tuples(st.just("step"), st.integers(0, 10**6)).map(list)
-    cat = st.tuples(st.just("cat"), st.sampled_from(WEIGHTED_CATS), st.integers(0, 200)).map(list)
-    reset = st.tuples(st.just("reset"), st.sampled_from([None, None, 1, 7])).map(list)
-    one = st.one_of(*([cat] * 16), *([step] * 3), reset)
-    return st.lists(one, min_size=1, max_size=max_ops)
+def ops_strategy(max_ops: int = 30, min_ops: int = 1):
+    """Weighted by a drawn selector (st.one_of collapses repeated identical branches, so repetition is no weight):
+    1/24 resets, 3/24 raw steps over the whole action space, 3/24 workflows on one component, 17/24 category ops."""
+
+    def mk(t):
+        k, a, cat, j, seed, verbs = t
+        if k < 1:
+            return ["reset", seed]
+        if k < 4:
+            return ["step", a]
+        if k < 7:
+            return ["wf", j, verbs]
+        return ["cat", cat, j]
+
+    op = st.tuples(st.integers(0, 23), st.integers(0, 10**6), st.sampled_from(WEIGHTED_CATS), st.integers(0, 200),
+                   st.sampled_from([None, None, 1, 7]), st.lists(st.integers(0, 30), min_size=2, max_size=4)).map(mk)
+    return st.lists(op, min_size=min_ops, max_size=max_ops)
+
+
+def action_index(meta: Dict, action: str, **options) -> Optional[int]:
+    for i, a in enumerate(meta["actions"]):
+        if a["action"] == action and all(a["options"].get(k) == v for k, v in options.items()):
+            return i
+    return None
+
+
+@st.composite
+def gated_off_phrase(draw, spec: Dict, host_index: int) -> List[List]:
+    """scan(s) on one host -> wait for completion -> host leaves ON -> keep observing -> power on again -> observe."""
+    _, meta = gen_scenario.build(spec)
+    h = meta["hosts"][host_index]
+    n = h["name"]
+
+    def idx(action, **o):
+        return action_index(meta, action, node_name=n, **o)
+
+    scans = {
+        "folder": idx("node-folder-scan", folder_name="docs"),
+        "file": idx("node-file-scan", folder_name="docs"),
+        "service": idx("node-service-scan"),
+        "app": idx("node-application-scan"),
+        "os": idx("node-os-scan"),
+    }
+    have = [k for k, v in scans.items() if v is not None]
+    chosen = draw(st.lists(st.sampled_from(have), min_size=1, max_size=len(have), unique=True))
+    if "folder" in have and "folder" not in chosen and draw(st.integers(0, 3)) > 0:
+        chosen.append("folder")  # the only kind whose observation keeps its own memory: in 3 of 4 phrases
+    idle = 0
+    ops: List[List] = [["step", scans[k]] for k in chosen]
+    # a folder scan publishes after folder_scan_duration (3, or 1 with the defaults block) ticks, an OS scan after
+    # node_scan_duration; 0..4 idle steps cover "completed" and, deliberately, "not yet completed"
+    ops += [["step", idle] for _ in range(draw(st.sampled_from([0, 2, 3, 3, 3, 4])))]
+    leave = draw(st.sampled_from(["shutdown", "shutdown", "reset"]))
+    ops.append(["step", idx("node-shutdown" if leave == "shutdown" else "node-reset")])
+    # SHUTTING_DOWN / OFF (/ BOOTING after a node reset) while observed
+    ops += [["step", idle] for _ in range(draw(st.integers(2, 5)))]
+    if draw(st.booleans()):
+        ops.append(["step", idx("node-startup")])
+        # BOOTING, then ON again: the published values are back
+        ops += [["step", idle] for _ in range(draw(st.integers(1, 4)))]
+    return [o for o in ops if o[1] is not None]
+
+
+@st.composite
+def sessions_phrase(draw, spec: Dict) -> List[List]:
+    """Several remote logins onto one host in a row (remote_sessions counts 0..3, capped), then a log-off."""
+    _, meta = gen_scenario.build(spec)
+    login = action_index(meta, "node-session-remote-login", password="admin")
+    logoff = action_index(meta, "node-session-remote-logoff")
+    if login is None:
+        return []
+    ops = [["step", login] for _ in range(draw(st.integers(2, 4)))]
+    ops += [["step", 0] for _ in range(draw(st.integers(0, 2)))]
+    if logoff is not None and draw(st.booleans()):
+        ops.append(["step", logoff])
+    return ops
 
 
 @st.composite
 def steered_spec(draw, **kw):
     spec = draw(gen_scenario.spec_strategy(**kw))
-    steer = draw(st.sampled_from(["none", "none", "attack", "attack", "acl", "sizes"]))
+    steer = draw(st.sampled_from(["gated_off", "attack", "sizes", "none", "acl", "gated_off", "attack", "sizes", "none"]))
     o = spec["obs"]
     if steer == "attack":
         # a reachable database + a data-manipulation bot driven by a red agent: malicious frames (NMNE), traffic,
@@ -48,8 +128,9 @@ def steered_spec(draw, **kw):
             att = spec["zones"][0][1]
         att["kind"] = "computer"
         att["off"] = False
-        keep = [t for t in att["sw"] if t in CLIENT_SW and t != "dmbot"][:2]
-        att["sw"] = sorted(keep + ["dmbot"])
+        # the bot sends its query through the host's database-client
+        keep = [t for t in att["sw"] if t in CLIENT_SW and t not in ("dmbot", "dbc")][:1]
+        att["sw"] = sorted(keep + ["dbc", "dmbot"])
         spec["agents"]["red"] = draw(st.sampled_from(["periodic", "dm"]))
         spec["agents"]["red_start"] = draw(st.integers(0, 2))
         spec["agents"]["red_freq"] = draw(st.integers(1, 2))
@@ -64,6 +145,25 @@ def steered_spec(draw, **kw):
             o[k] = max(o[k], 1)
         o["include_num_access"] = True
         o["include_users"] = True
+        flat = [h for z in spec["zones"] for h in z]
+        flat[0]["off"] = flat[-1]["off"] = False  # both ends of the generated remote-login actions are up
+        spec["acl_deny"] = False
+    elif steer == "gated_off":
+        # everything scan-gated and observed; the target host is ON, has a folder with a file and some software, and
+        # takes 0..3 ticks to shut down (0 = straight to OFF)
+        for k in ("num_services", "num_applications", "num_folders", "num_files"):
+            o[k] = max(o[k], 1)
+        o["fs_scan"] = o["svc_scan"] = o["app_scan"] = True
+        o["missing"] = False
+        spec["max_len"] = max(spec["max_len"], 24)  # the phrase must fit into one episode
+        flat = [h for z in spec["zones"] for h in z]
+        hi = draw(st.integers(0, len(flat) - 1))
+        h = flat[hi]
+        h["off"] = False
+        h["files"] = max(h["files"], 1)
+        if not h["sw"]:
+            h["sw"] = ["ftp", "web"] if h["kind"] == "server" else ["browser", "dnsc"]
+        spec["gated_host"] = hi
     spec["steer"] = steer
     return spec
 
@@ -71,5 +171,12 @@ def steered_spec(draw, **kw):
 @st.composite
 def case_strategy(draw, max_ops: int = 30, **kw):
     spec = draw(steered_spec(**kw))
-    ops = draw(ops_strategy(max_ops))
-    return {"src": "gen", "spec": spec, "ops": ops}
+    if spec["steer"] == "gated_off":
+        head = draw(gated_off_phrase(spec, spec["gated_host"]))
+        tail = draw(ops_strategy(max(max_ops - len(head), 1), min_ops=0))
+        return {"src": "gen", "spec": spec, "ops": head + tail}
+    if spec["steer"] == "sizes":
+        head = draw(sessions_phrase(spec))
+        tail = draw(ops_strategy(max(max_ops - len(head), 1), min_ops=0 if head else 1))
+        return {"src": "gen", "spec": spec, "ops": head + tail}
+    return {"src": "gen", "spec": spec, "ops": draw(ops_strategy(max_ops))}
